@@ -36,6 +36,12 @@ RULE = (
     "match must raise ValueError (enumerated).  mape-bias: non-zero 1-D "
     "truth, predictions perfect / uniformly p% high / p% low / arbitrary "
     "relative errors, a permutation and a common scale factor.  "
+    "Integer-typed input: pinball cases with int8 / int16 / int32 / int64 "
+    "arrays (uint8 truth with float estimates), optionally scaled to the "
+    "range of the dtype or mixed with float; mape-bias-int: int8 / int16 / "
+    "int32 / int64 truth and predictions (or float predictions, also for "
+    "uint8 truth), perfect / general / exactly p percent off (truth 100k, "
+    "prediction (100+-p)k), a permutation and an integer scale factor.  "
     "Non-trivial = some tau != 0.5 and a non-constant sample (pinball, "
     "minimiser) / at least 2 values and p > 0 or mixed-sign errors "
     "(mape-bias).  Distinct = distinct case hash."
@@ -44,6 +50,10 @@ ASSUMPTIONS = [
     "inputs are numpy arrays (the functions call .reshape/.ravel on them)",
     "values are 0 or at least 1e-100 in magnitude and at most 1e12, so that "
     "tau*|d| neither underflows nor overflows",
+    "integer-typed input: every value and every difference prediction - "
+    "truth / estimate - observation is representable in the integer dtype "
+    "(NumPy integer arithmetic wraps silently, so uint8 is only combined "
+    "with float partners); |values| <= 1e15 for int64",
     "mape / bias: 1-D truth vector without zeros; predictions 1-D (mape "
     "also (n,1), which it ravels); bias is documented for 1-D input only",
     "an inconsistent shape is one where y_tau.size != y_test.size * "
@@ -68,6 +78,8 @@ def clean(v):
     return v
 
 
+INT_MAX = {"int8": 127, "int16": 32767, "int32": 2 ** 31 - 1,
+           "int64": 2 ** 63 - 1, "uint8": 255}
 BIG_N = [4095, 4096, 4097, 5000, 8191, 8193, 10000]
 
 
@@ -129,11 +141,28 @@ def pinball_cases(draw, large=2000):
     b = draw(st.integers(0, 11))
     y_tau = [[clean(y[i] + offs[(a * i + b * j + i * j) % P])
               for j in range(k)] for i in range(n)]
-    dtype = "float"
-    if kind == "lattice" and draw(st.integers(0, 3)) == 0:
+    dtype = dtype_test = dtype_tau = "float"
+    if kind == "lattice" and draw(st.integers(0, 2)) == 0:
         dtype = "int"
         y = [float(round(v)) for v in y]
         y_tau = [[float(round(v)) for v in row] for row in y_tau]
+        vmax = max(1.0, max(abs(v) for v in y),
+                   max(abs(v) for row in y_tau for v in row))
+        # integer dtypes in which every value and every difference fits
+        fits = [t for t in ("int8", "int16", "int32", "int64")
+                if 2 * vmax <= INT_MAX[t]]
+        it = draw(st.sampled_from(fits))
+        if draw(st.booleans()):
+            # use the range of the dtype
+            f = float(int(min(INT_MAX[it], 2 ** 50) // (2 * vmax)))
+            y = [v * f for v in y]
+            y_tau = [[v * f for v in row] for row in y_tau]
+        mix = draw(st.sampled_from(["both", "both", "test-int", "tau-int"]))
+        dtype_test = it if mix != "tau-int" else "float"
+        dtype_tau = it if mix != "test-int" else "float"
+        if mix == "test-int" and min(y) >= 0 and max(y) <= 255 \
+                and draw(st.booleans()):
+            dtype_test = "uint8"
     ytau_shape = "2d"
     if k == 1:
         ytau_shape = draw(st.sampled_from(["2d", "flat", "col"]))
@@ -143,15 +172,23 @@ def pinball_cases(draw, large=2000):
         "taus_form": draw(st.sampled_from(
             ["list", "array", "row"] + (["scalar"] if k == 1 else []))),
         "y_tau": y_tau, "ytau_shape": ytau_shape, "dtype": dtype,
+        "dtype_test": dtype_test, "dtype_tau": dtype_tau,
         "kind": kind,
     }
 
 
 def build_pinball(case):
-    dt = np.int64 if case["dtype"] == "int" else np.float64
-    y = np.array(case["y_test"], dtype=dt)
+    dt = "int64" if case["dtype"] == "int" else "float"
+    dtt = case.get("dtype_test", dt)
+    dta = case.get("dtype_tau", dt)
+    dtt = "float64" if dtt == "float" else dtt
+    dta = "float64" if dta == "float" else dta
+    y = np.array([int(v) if dtt != "float64" else v
+                  for v in case["y_test"]], dtype=dtt)
     n = y.size
-    yt = np.array(case["y_tau"], dtype=dt).reshape(n, len(case["taus"]))
+    yt = np.array([[int(v) if dta != "float64" else v for v in row]
+                   for row in case["y_tau"]], dtype=dta).reshape(
+        n, len(case["taus"]))
     y_arg = y.reshape(n, 1) if case["ytest_shape"] == "col" else y
     if case["ytau_shape"] == "flat":
         yt_arg = yt.reshape(n)
@@ -187,6 +224,10 @@ def check_pinball(case, ctx):
     ctx.label("kind-" + case["kind"], "ytau-" + case["ytau_shape"],
               "ytest-" + case["ytest_shape"], "taus-" + case["taus_form"],
               "dtype-" + case["dtype"])
+    if case["dtype"] == "int":
+        ctx.label("ytest-dtype-" + case.get("dtype_test", "int64"),
+                  "ytau-dtype-" + case.get("dtype_tau", "int64"),
+                  "integer-typed-input")
     ctx.label("vector-tau" if k > 1 else "single-tau")
     label_size(ctx, n)
     if len(set(case["y_test"])) < n:
@@ -458,6 +499,148 @@ def check_mape(case, ctx):
                       m, m3, b, b3, c)))
 
 
+# --------------------------------------------------------------------------
+# mape / bias with integer-typed input
+# --------------------------------------------------------------------------
+@st.composite
+def mape_int_cases(draw):
+    ttype = draw(st.sampled_from(["int8", "int16", "int16", "int32", "int32",
+                                  "int64", "uint8"]))
+    # uint8 differences wrap in NumPy: only with float predictions
+    ptype = "float" if ttype == "uint8" else draw(
+        st.sampled_from([ttype, ttype, ttype, "float"]))
+    top = min(INT_MAX[ttype], 10 ** 15)      # exact in long double / float
+    H = top // 2
+    n = draw(st.one_of(st.integers(1, 30), st.integers(30, 2000)))
+    mode = draw(st.sampled_from(["perfect", "uniform-high", "uniform-low",
+                                 "general", "general"]))
+
+    def ints(lo, hi, k):
+        el = st.one_of(st.integers(lo, hi), st.integers(max(lo, hi // 2), hi),
+                       st.integers(lo, max(lo, lo // 2) if lo < 0 else hi),
+                       st.sampled_from([lo, hi]))
+        if k <= 30:
+            return draw(st.lists(el, min_size=k, max_size=k))
+        pool = draw(st.lists(el, min_size=7, max_size=29))
+        a, b = draw(st.integers(1, 28)), draw(st.integers(0, 28))
+        return [pool[(a * i + b) % len(pool)] for i in range(k)]
+
+    lo = 1 if ttype == "uint8" else -H
+    hi = 255 if ttype == "uint8" else H
+    p = 0
+    if mode in ("uniform-high", "uniform-low") and ttype != "uint8":
+        # truth = 100 k, prediction = (100 +- p) k, everything fits
+        p = draw(st.integers(1, min(100, top - 100)))
+        kmax = top // (100 + p)
+        ks = [v if v else 1 for v in ints(-kmax, kmax, n)]
+        sgn = 1 if mode == "uniform-high" else -1
+        truth = [100 * k for k in ks]
+        pred = [(100 + sgn * p) * k for k in ks]
+    else:
+        if mode.startswith("uniform"):
+            mode = "general"
+        truth = [v if v else 1 for v in ints(lo, hi, n)]
+        if mode == "perfect":
+            pred = list(truth)
+        elif ptype == "float":
+            rel = draw(st.lists(st.floats(-2.0, 2.0, allow_nan=False),
+                                min_size=3, max_size=11))
+            pred = [t * (1.0 + rel[(5 * i) % len(rel)])
+                    for i, t in enumerate(truth)]
+        else:
+            err = ints(-H, H, n)
+            pred = [t + e for t, e in zip(truth, err)]
+    if ptype == "float":
+        pred = [float(v) for v in pred]
+    # a common integer factor that keeps everything inside the dtype
+    vmax = max(max(abs(v) for v in truth), max(abs(v) for v in pred), 1)
+    dmax = max(max(abs(a - b) for a, b in zip(pred, truth)), 1)
+    cmax = int(min(top // vmax, top // dmax))
+    c = min(draw(st.sampled_from([1, 2, 3, 10, 40, 1000])), max(cmax, 1))
+    if ttype == "uint8" and max(truth) * c > 255:
+        c = 1
+    a = draw(st.integers(1, 10 ** 6))
+    while gcd(a, n) != 1:
+        a += 1
+    b = draw(st.integers(0, 10 ** 6))
+    return {"truth": truth, "pred": pred, "ttype": ttype, "ptype": ptype,
+            "mode": mode, "p": p, "scale": c,
+            "perm": [(a * i + b) % n for i in range(n)],
+            "pred_shape": draw(st.sampled_from(["flat", "flat", "col"]))}
+
+
+def check_mape_int(case, ctx):
+    from typhon.retrieval import scores
+    ttype, ptype = case["ttype"], case["ptype"]
+    truth, pred = case["truth"], case["pred"]
+    n = len(truth)
+    mode, p = case["mode"], case["p"]
+
+    def arrays(c):
+        t = np.array([v * c for v in truth], dtype=ttype)
+        pr = np.array([v * c for v in pred],
+                      dtype="float64" if ptype == "float" else ptype)
+        return t, pr
+
+    t, pr = arrays(1)
+    ctx.label("truth-" + ttype, "pred-" + ptype, "mode-" + mode,
+              "integer-typed-input")
+    if ptype == "float":
+        ctx.label("mixed-int-truth-float-pred")
+    label_size(ctx, n)
+    tl = np.array([LD(v) for v in truth])
+    pl = np.array([LD(v) for v in pred])
+    terms_b = LD(100) * (pl - tl) / tl
+    terms_m = np.abs(terms_b)
+    exp_m = float(terms_m.sum() / LD(n))
+    exp_b = float(terms_b.sum() / LD(n))
+    emax = float(np.abs(pl - tl).max())
+    if ptype != "float" and 100 * emax > INT_MAX[ttype]:
+        ctx.label("100*|error|-exceeds-dtype")
+        ctx.nontrivial = True
+    elif n >= 2 and mode != "perfect":
+        ctx.nontrivial = True
+    tol = 1e-12 * exp_m + 1e-300
+
+    def both(tt, pp):
+        pm = pp.reshape(-1, 1) if case["pred_shape"] == "col" else pp
+        return float(scores.mape(pm, tt)), float(scores.bias(pp, tt))
+
+    m, b = both(t, pr)
+    ctx.check(abs(m - exp_m) <= tol, "mape/value", lambda: (
+        "%s truth, %s predictions, n=%d mode=%s: mape=%r, mean(100|p-t|/|t|)"
+        "=%r (largest |p-t| = %r)" % (ttype, ptype, n, mode, m, exp_m, emax)))
+    ctx.check(abs(b - exp_b) <= tol, "bias/value", lambda: (
+        "%s truth, %s predictions, n=%d mode=%s: bias=%r, mean(100(p-t)/t)=%r"
+        % (ttype, ptype, n, mode, b, exp_b)))
+    if mode == "perfect":
+        ctx.check(m == 0.0 and b == 0.0, "mape-bias/perfect-not-zero",
+                  lambda: "mape=%r bias=%r" % (m, b))
+    elif mode.startswith("uniform"):
+        sgn = 1.0 if mode == "uniform-high" else -1.0
+        ctol = 1e-10 * p + 1e-11
+        ctx.check(abs(m - p) <= ctol, "mape/uniform-offset", lambda: (
+            "truth 100k, predictions (100%+d)k as %s: mape=%r" % (
+                sgn * p, ttype, m)))
+        ctx.check(abs(b - sgn * p) <= ctol, "bias/uniform-offset", lambda: (
+            "truth 100k, predictions (100%+d)k as %s: bias=%r" % (
+                sgn * p, ttype, b)))
+    perm = np.array(case["perm"], dtype=int)
+    m2, b2 = both(t[perm], pr[perm])
+    ctx.check(abs(m2 - m) <= tol and abs(b2 - b) <= tol,
+              "mape-bias/permutation", lambda: (
+                  "mape %r -> %r, bias %r -> %r after permuting" % (
+                      m, m2, b, b2)))
+    c = case["scale"]
+    if c != 1:
+        ctx.label("integer-scale")
+        m3, b3 = both(*arrays(c))
+        ctx.check(abs(m3 - m) <= tol and abs(b3 - b) <= tol,
+                  "mape-bias/scale", lambda: (
+                      "%s data times %d: mape %r -> %r, bias %r -> %r" % (
+                          ttype, c, m, m3, b, b3)))
+
+
 def suites(tier):
     large = 2000 if tier == "quick" else 10000
     return [
@@ -467,7 +650,9 @@ def suites(tier):
               strategy=minimiser_cases(300 if tier == "quick" else 600),
               examples={"quick": 650, "thorough": 2500}),
         Suite("mape-bias", check_mape, strategy=mape_cases(large),
-              examples={"quick": 1100, "thorough": 6000}),
+              examples={"quick": 950, "thorough": 6000}),
+        Suite("mape-bias-int", check_mape_int, strategy=mape_int_cases(),
+              examples={"quick": 250, "thorough": 2500}),
         Suite("shapes-invalid", check_invalid, cases=invalid_shape_cases,
               exhaustive=True),
     ]
